@@ -543,7 +543,19 @@ func runShard(spec *Spec, tier string, sh *Shard, only string) *Part {
 			fairDeadline = time.Time{}
 			if !shardDeadline.IsZero() {
 				if left := time.Until(shardDeadline); left > 0 {
-					fairDeadline = time.Now().Add(left / time.Duration(len(mine)-i))
+					share := left / time.Duration(len(mine)-i)
+					// never less than the quick tier would have given it
+					floor := spec.QuickBudget
+					if sc.Budget > floor {
+						floor = sc.Budget
+					}
+					if floor == 0 {
+						floor = time.Minute
+					}
+					if share < floor {
+						share = floor
+					}
+					fairDeadline = time.Now().Add(share)
 				}
 			}
 			runScenario(sc, tier, spec, part)
